@@ -42,7 +42,7 @@ W3 == [seq |-> 3, from |-> "u2", to |-> "u1", denom |-> "d2", amt |-> 1]
 WBig == [seq |-> 4, from |-> "u2", to |-> "u1", denom |-> "d1", amt |-> 4]     \* over the 64-bit cap (cap = 3 units; 4 units = 2^64)
 L(b, w) == [b |-> b, seq |-> w.seq, from |-> w.from, to |-> w.to, denom |-> w.denom, amt |-> w.amt]
 
-WN(i) == [seq |-> i, from |-> IF i % 3 = 0 THEN "up:u2" ELSE "u2", to |-> IF i % 2 = 0 THEN "up:u1" ELSE "u1", denom |-> "d1", amt |-> 1]
+WN(i) == [seq |-> i, from |-> IF i % 3 = 0 THEN "up:u2" ELSE "u2", to |-> IF i % 5 = 0 THEN "pool" ELSE IF i % 2 = 0 THEN "up:u1" ELSE "u1", denom |-> "d1", amt |-> 1]   \* every fifth recipient is a module account (the community pool)
 TreeN(n) == [i \in 1..n |-> L(1, WN(i))]
 MaxTreeN == IF Tier = "thorough" THEN 16 ELSE 8
 NName(n) == "N" \o ToString(n)
@@ -57,7 +57,7 @@ Root(v, t, h) == [v |-> v, t |-> t, h |-> h]
 
 (* a claim of withdrawal w against output index out of bridge b, built from  *)
 (* tree t / position pos / block hash h / version v, then mutated by mut     *)
-ProofMuts == {"none", "flip", "drop", "dup", "ext"}
+ProofMuts == {"none", "flip", "drop", "dup", "ext", "zeroext", "zeropre"}     \* zeroext / zeropre: an all-zero 32-byte element appended / prepended
 LeafEq(b, w, l) == l = L(b, w)
 Claim(signer, b, out, w, v, t, pos, h, mut) ==
   [type |-> "FinalizeTokenWithdrawal", signer |-> signer, b |-> b, out |-> out, w |-> w,
@@ -120,6 +120,11 @@ OracleEvents(s) ==
   \cup Creates(s, {"u1"}, {Cfg("p1", "c1", p, MetaNone) : p \in periods})
   \cup Proposes({"p1", "x"}, {1, 2}, 0..3, 1..2, roots)
   \cup Deletes({"gov", "p1", "c1", "x"}, {1, 2}, 0..3)
+  \* a relayer re-broadcasts the proposal that was just accepted (same index, block number and root), however many guards that fails
+  \cup (IF s.nextOut["1"] >= 2 /\ Has(s.outs["1"], K(s.nextOut["1"] - 1))
+        THEN LET o == s.outs["1"][K(s.nextOut["1"] - 1)] IN
+             {[always |-> TRUE] @@ x : x \in Proposes({"p1"}, {1}, {s.nextOut["1"] - 1}, {o.l2bn}, {o.root})}
+        ELSE {})
   \cup (IF s.l1seq["1"] <= 2 THEN Deposits({"u1"}, {1}, {"u2"}, {"d1"}, {1}, {"p0"}) ELSE {})
   \cup {Claim("x", 1, o, W1, 0, "T1", 1, "h1", "none") : o \in 1..2}
 
@@ -147,7 +152,7 @@ BadPos == {c \in {Claim("x", b, o, w, 0, t, pos, "h1", "none") : b \in {1, 2}, o
 InTree(S) == {c \in S : c.pos <= Len(c.tree.leaves)}     \* the harness builds proofs for existing positions only
 ClaimEvents(s) ==
   LET roots == {Root(0, "T1", "h1"), Root(0, "T2", "h1"), Root(0, "T3", "h1")}
-      muts  == IF Thorough THEN ProofMuts \cup {"len31"} ELSE {"none", "flip", "drop", "ext"}
+      muts  == IF Thorough THEN ProofMuts \cup {"len31"} ELSE {"none", "flip", "drop", "ext", "zeroext", "zeropre"}
       n     == s.nextOut["1"] IN
   Advance(s, 4, {4})
   \cup Creates(s, {"u1"}, {Cfg("p1", "c1", 2, MetaNone)})
@@ -226,6 +231,7 @@ TreeEvents(s) ==
 
 (* C05 at the edge of representable durations: one tick is about 136 years, periods of one and two ticks *)
 WindowEvents(s) ==
+  \* a second bridge with its own period may exist: the window of an output is its own bridge's, whatever the other bridge's id or period
   Advance(s, 3, {0, 1, 2})
   \cup Creates(s, {"u1"}, {Cfg("p1", "c1", p, MetaNone) : p \in {1, 2}})
   \cup (IF s.nextOut["1"] <= 2 THEN Proposes({"p1"}, {1}, {s.nextOut["1"]}, {s.nextOut["1"]}, {Root(0, "T1", "h1")}) ELSE {})
@@ -242,7 +248,7 @@ Events(s) ==
     [] Fam = "auth"   -> AuthEvents(s)
     [] Fam = "perm"   -> PermEvents(s)
 
-MaxB == CASE Fam = "window" -> 1 [] Fam = "trees" -> 1 [] Fam = "oracle" -> 1 [] Fam = "ledger" -> 2 [] Fam = "claims" -> 2 [] Fam = "auth" -> 1 [] Fam = "perm" -> 2
+MaxB == CASE Fam = "window" -> 2 [] Fam = "trees" -> 1 [] Fam = "oracle" -> 1 [] Fam = "ledger" -> 2 [] Fam = "claims" -> 2 [] Fam = "auth" -> 1 [] Fam = "perm" -> 2
 
 Amt0 == IF Fam = "trees" THEN MaxTreeN ELSE 8
 S0 == InitStateSec(BKeys, Accts, Denoms, {"u1", "u2"}, Amt0, "d1", Chans, 3, MaxB, Devs, IF Fam = "window" THEN 1 ELSE 2)
